@@ -45,7 +45,7 @@ MONITOR_PROPS = {
 # conformance fields (DIFF kind.field) -> properties, from the properties' own anchors (DESIGN 12.2)
 FIELD_PROPS = {
     "srv.cl.mutTick": ["C01", "C02", "C11"],
-    "srv.cl.inflight": ["C01", "C11"],
+    "srv.cl.inflight": ["C01", "C02", "C10", "C11"],
     "srv.cl.nextIdx": ["C11"],
     "srv.despawnBuf": ["C01", "C03"],
     "srv.removalBuf": ["C01", "C03"],
